@@ -231,6 +231,7 @@ func genXLSX(r *hx.Rng) *pkg {
 			p.Notes = append(p.Notes, "dangling-default-collision")
 		}
 	}
+	p.admissionVariant(r.Fork(0xad31))
 	p.finishZip(r, "")
 	return p
 }
